@@ -73,6 +73,24 @@ def external_solve(smt2: str, timeout_s: float):
             pass
 
 
+def _index_terms(formulas, limit=4000):
+    """Int-sorted index terms of array selects occurring in the formulas (free of bound vars)."""
+    out, seen, stack = [], set(), list(formulas)
+    n = 0
+    while stack and n < limit:
+        e = stack.pop()
+        i = e.get_id()
+        if i in seen:
+            continue
+        seen.add(i)
+        n += 1
+        if z3.is_app(e):
+            if e.decl().kind() == z3.Z3_OP_SELECT and e.num_args() == 2 and z3.is_int(e.arg(1)):
+                out.append(e.arg(1))
+            stack.extend(e.children())
+    return out
+
+
 class Obligation:
     __slots__ = ("label", "status", "backend", "time_s", "model", "path_id", "detail", "smt2", "kind", "reify", "inputs")
 
@@ -114,6 +132,7 @@ class Path:
         self.pc = []  # z3 Bool facts
         self.qhyps = []  # callables: term -> z3 Bool (universally quantified hypotheses)
         self.pool = []  # z3 Int terms used for instantiation
+        self.term_maps = []  # functions deriving further instantiation terms from pool terms
         self.counter = 0
         self.obligations = []
         self.forks = []  # decision lists to explore later
@@ -154,30 +173,61 @@ class Path:
                 return
         self.pool.append(t)
 
-    def instantiated(self, extra_terms=()):
+    def instantiated(self, extra_terms=(), goal=None):
+        """Instances of the quantified hypotheses: round 1 over the pool (skolems, program
+        integers, +-1, 0); round 2 over the array index terms that occur in the goal and in
+        the round-1 instances (so that chained pointwise facts such as concat -> class
+        invariant meet at the shifted index)."""
         terms = list(self.pool)
-        for t in extra_terms:
-            if not any(u.eq(t) for u in terms):
+        seen = {t.get_id() for t in terms}
+
+        def add(t):
+            if t.get_id() not in seen:
+                seen.add(t.get_id())
                 terms.append(t)
-        base = list(terms)
-        for t in base:
-            for d in (t + 1, t - 1):
-                d = simp(d)
-                if not any(u.eq(d) for u in terms):
-                    terms.append(d)
-        z = z3.IntVal(0)
-        if not any(u.eq(z) for u in terms):
-            terms.append(z)
-        out = []
-        for q in self.qhyps:
-            for t in terms:
+                return True
+            return False
+
+        for t in extra_terms:
+            add(t)
+        for t in list(terms):
+            add(simp(t + 1))
+            add(simp(t - 1))
+        add(z3.IntVal(0))
+        if goal is not None:
+            for t in _index_terms([goal]):
+                add(t)
+        cache = self.__dict__.setdefault("_inst_cache", {})
+
+        def run(ts):
+            out = []
+            for q in list(self.qhyps):
+                for t in ts:
+                    key = (id(q), t.get_id())
+                    if key in cache:
+                        f = cache[key]
+                    else:
+                        try:
+                            f = q(t)
+                        except Exception as e:
+                            f = None
+                            if os.environ.get("PYVC_DEBUG"):
+                                import traceback
+
+                                traceback.print_exc()
+                        cache[key] = f
+                    if f is not None:
+                        out.append(f)
+            return out
+
+        # derived terms (e.g. t - len(a) for a concatenation a ++ b)
+        for t in list(terms):
+            for fmap in self.term_maps:
                 try:
-                    f = q(t)
+                    add(simp(fmap(t)))
                 except Exception:
-                    continue
-                if f is not None:
-                    out.append(f)
-        return out
+                    pass
+        return run(terms)
 
     # ------------------------------------------------------------------ solving
     def _check(self, extra, timeout_ms, inst=True):
@@ -279,9 +329,8 @@ class Path:
         if z3.is_true(goal):
             ob.status, ob.backend = "unsat", "simplifier"
             return ob
-        hyps = list(self.pc)
-        if self.qhyps:
-            hyps += self.instantiated(extra_terms)
+        inst = self.instantiated(extra_terms, goal) if self.qhyps else []
+        hyps = list(self.pc) + inst
         s = _mk_solver(VC_TIMEOUT_MS)
         for f in hyps:
             s.add(f)
